@@ -1,7 +1,7 @@
 (* Final statements about the comparer model, used verbatim by Props/C20.v. *)
-From Coq Require Import String List Arith NArith ZArith Bool.
+From Coq Require Import String List Arith NArith ZArith Bool Lia.
 From SV Require Import Base.Base Cmp.Comparer Cmp.Diff Proofs.CmpBase Proofs.CmpAccept Proofs.CmpReject
-  Proofs.CmpWitness.
+  Proofs.CmpSound Proofs.CmpWitness.
 Import ListNotations.
 
 (* ---------- accepts ---------- *)
@@ -20,133 +20,133 @@ Lemma wf_of (P : Prop) : P -> P. Proof. auto. Qed.
 
 (* a port's direction differs *)
 Lemma rejects_port_dir : forall a b, wf_named a -> no_asg a -> nv_diff MPortDir a b -> cmp_run a b = Reject.
-Proof. intros a b H1 H2 H3. exact (nv_diff_reject MPortDir a b H1 H2 eq_refl H3). Qed.
+Proof. intros a b H1 H2 H3. exact (nv_diff_reject MPortDir a b H1 H2 H3). Qed.
 
 Lemma rejects_port_dir_ex : exists a b, wf_named a /\ no_asg a /\ nv_diff MPortDir a b.
 Proof. exists w_base, w_port_dir. split; [vm_compute; reflexivity|split; [vm_compute; reflexivity|exact w_port_dir_diff]]. Qed.
 
 (* a port's width differs *)
 Lemma rejects_port_width : forall a b, wf_named a -> no_asg a -> nv_diff MPortWidth a b -> cmp_run a b = Reject.
-Proof. intros a b H1 H2 H3. exact (nv_diff_reject MPortWidth a b H1 H2 eq_refl H3). Qed.
+Proof. intros a b H1 H2 H3. exact (nv_diff_reject MPortWidth a b H1 H2 H3). Qed.
 
 Lemma rejects_port_width_ex : exists a b, wf_named a /\ no_asg a /\ nv_diff MPortWidth a b.
 Proof. exists w_base, w_port_width. split; [vm_compute; reflexivity|split; [vm_compute; reflexivity|exact w_port_width_diff]]. Qed.
 
 (* a port's array-ness differs *)
 Lemma rejects_port_array : forall a b, wf_named a -> no_asg a -> nv_diff MPortArray a b -> cmp_run a b = Reject.
-Proof. intros a b H1 H2 H3. exact (nv_diff_reject MPortArray a b H1 H2 eq_refl H3). Qed.
+Proof. intros a b H1 H2 H3. exact (nv_diff_reject MPortArray a b H1 H2 H3). Qed.
 
 Lemma rejects_port_array_ex : exists a b, wf_named a /\ no_asg a /\ nv_diff MPortArray a b.
 Proof. exists w_base, w_port_array. split; [vm_compute; reflexivity|split; [vm_compute; reflexivity|exact w_port_array_diff]]. Qed.
 
 (* a cable's width differs *)
 Lemma rejects_cable_width : forall a b, wf_named a -> no_asg a -> nv_diff MCableWidth a b -> cmp_run a b = Reject.
-Proof. intros a b H1 H2 H3. exact (nv_diff_reject MCableWidth a b H1 H2 eq_refl H3). Qed.
+Proof. intros a b H1 H2 H3. exact (nv_diff_reject MCableWidth a b H1 H2 H3). Qed.
 
 Lemma rejects_cable_width_ex : exists a b, wf_named a /\ no_asg a /\ nv_diff MCableWidth a b.
 Proof. exists w_base, w_cable_width. split; [vm_compute; reflexivity|split; [vm_compute; reflexivity|exact w_cable_width_diff]]. Qed.
 
 (* a connection moved to another instance *)
 Lemma rejects_conn_inst : forall a b, wf_named a -> no_asg a -> nv_diff MConnInst a b -> cmp_run a b = Reject.
-Proof. intros a b H1 H2 H3. exact (nv_diff_reject MConnInst a b H1 H2 eq_refl H3). Qed.
+Proof. intros a b H1 H2 H3. exact (nv_diff_reject MConnInst a b H1 H2 H3). Qed.
 
 Lemma rejects_conn_inst_ex : exists a b, wf_named a /\ no_asg a /\ nv_diff MConnInst a b.
 Proof. exists w_base, w_conn_inst. split; [vm_compute; reflexivity|split; [vm_compute; reflexivity|exact w_conn_inst_diff]]. Qed.
 
 (* a connection moved to another port *)
 Lemma rejects_conn_port : forall a b, wf_named a -> no_asg a -> nv_diff MConnPort a b -> cmp_run a b = Reject.
-Proof. intros a b H1 H2 H3. exact (nv_diff_reject MConnPort a b H1 H2 eq_refl H3). Qed.
+Proof. intros a b H1 H2 H3. exact (nv_diff_reject MConnPort a b H1 H2 H3). Qed.
 
 Lemma rejects_conn_port_ex : exists a b, wf_named a /\ no_asg a /\ nv_diff MConnPort a b.
 Proof. exists w_base, w_conn_port. split; [vm_compute; reflexivity|split; [vm_compute; reflexivity|exact w_conn_port_diff]]. Qed.
 
 (* a connection moved to another bit *)
 Lemma rejects_conn_bit : forall a b, wf_named a -> no_asg a -> nv_diff MConnBit a b -> cmp_run a b = Reject.
-Proof. intros a b H1 H2 H3. exact (nv_diff_reject MConnBit a b H1 H2 eq_refl H3). Qed.
+Proof. intros a b H1 H2 H3. exact (nv_diff_reject MConnBit a b H1 H2 H3). Qed.
 
 Lemma rejects_conn_bit_ex : exists a b, wf_named a /\ no_asg a /\ nv_diff MConnBit a b.
 Proof. exists w_base, w_conn_bit. split; [vm_compute; reflexivity|split; [vm_compute; reflexivity|exact w_conn_bit_diff]]. Qed.
 
 (* an instance (or the top instance) re-pointed to another definition *)
 Lemma rejects_inst_ref : forall a b, wf_named a -> no_asg a -> nv_diff MInstRef a b -> cmp_run a b = Reject.
-Proof. intros a b H1 H2 H3. exact (nv_diff_reject MInstRef a b H1 H2 eq_refl H3). Qed.
+Proof. intros a b H1 H2 H3. exact (nv_diff_reject MInstRef a b H1 H2 H3). Qed.
 
 Lemma rejects_inst_ref_ex : exists a b, wf_named a /\ no_asg a /\ nv_diff MInstRef a b.
 Proof. exists w_base, w_inst_ref. split; [vm_compute; reflexivity|split; [vm_compute; reflexivity|exact w_inst_ref_diff]]. Qed.
 
 (* the value of one property of an instance differs *)
 Lemma rejects_inst_prop : forall a b, wf_named a -> no_asg a -> nv_diff MInstProp a b -> cmp_run a b = Reject.
-Proof. intros a b H1 H2 H3. exact (nv_diff_reject MInstProp a b H1 H2 eq_refl H3). Qed.
+Proof. intros a b H1 H2 H3. exact (nv_diff_reject MInstProp a b H1 H2 H3). Qed.
 
 Lemma rejects_inst_prop_ex : exists a b, wf_named a /\ no_asg a /\ nv_diff MInstProp a b.
 Proof. exists w_base, w_prop_value. split; [vm_compute; reflexivity|split; [vm_compute; reflexivity|exact w_prop_value_diff]]. Qed.
 
 (* the copy has one more library *)
 Lemma rejects_lib_add : forall a b, wf_named a -> no_asg a -> nv_diff MLibAdd a b -> cmp_run a b = Reject.
-Proof. intros a b H1 H2 H3. exact (nv_diff_reject MLibAdd a b H1 H2 eq_refl H3). Qed.
+Proof. intros a b H1 H2 H3. exact (nv_diff_reject MLibAdd a b H1 H2 H3). Qed.
 
 Lemma rejects_lib_add_ex : exists a b, wf_named a /\ no_asg a /\ nv_diff MLibAdd a b.
 Proof. exists w_lib_drop, w_base. split; [vm_compute; reflexivity|split; [vm_compute; reflexivity|exact w_lib_add_diff]]. Qed.
 
 (* the copy lacks one library *)
 Lemma rejects_lib_drop : forall a b, wf_named a -> no_asg a -> nv_diff MLibDrop a b -> cmp_run a b = Reject.
-Proof. intros a b H1 H2 H3. exact (nv_diff_reject MLibDrop a b H1 H2 eq_refl H3). Qed.
+Proof. intros a b H1 H2 H3. exact (nv_diff_reject MLibDrop a b H1 H2 H3). Qed.
 
 Lemma rejects_lib_drop_ex : exists a b, wf_named a /\ no_asg a /\ nv_diff MLibDrop a b.
 Proof. exists w_base, w_lib_drop. split; [vm_compute; reflexivity|split; [vm_compute; reflexivity|exact w_lib_drop_diff]]. Qed.
 
 (* the copy has one more definition *)
 Lemma rejects_def_add : forall a b, wf_named a -> no_asg a -> nv_diff MDefAdd a b -> cmp_run a b = Reject.
-Proof. intros a b H1 H2 H3. exact (nv_diff_reject MDefAdd a b H1 H2 eq_refl H3). Qed.
+Proof. intros a b H1 H2 H3. exact (nv_diff_reject MDefAdd a b H1 H2 H3). Qed.
 
 Lemma rejects_def_add_ex : exists a b, wf_named a /\ no_asg a /\ nv_diff MDefAdd a b.
 Proof. exists w_base, w_def_add. split; [vm_compute; reflexivity|split; [vm_compute; reflexivity|exact w_def_add_diff]]. Qed.
 
 (* the copy lacks one definition *)
 Lemma rejects_def_drop : forall a b, wf_named a -> no_asg a -> nv_diff MDefDrop a b -> cmp_run a b = Reject.
-Proof. intros a b H1 H2 H3. exact (nv_diff_reject MDefDrop a b H1 H2 eq_refl H3). Qed.
+Proof. intros a b H1 H2 H3. exact (nv_diff_reject MDefDrop a b H1 H2 H3). Qed.
 
 Lemma rejects_def_drop_ex : exists a b, wf_named a /\ no_asg a /\ nv_diff MDefDrop a b.
 Proof. exists w_def_add, w_base. split; [vm_compute; reflexivity|split; [vm_compute; reflexivity|exact w_def_drop_diff]]. Qed.
 
 (* the copy has one more port *)
 Lemma rejects_port_add : forall a b, wf_named a -> no_asg a -> nv_diff MPortAdd a b -> cmp_run a b = Reject.
-Proof. intros a b H1 H2 H3. exact (nv_diff_reject MPortAdd a b H1 H2 eq_refl H3). Qed.
+Proof. intros a b H1 H2 H3. exact (nv_diff_reject MPortAdd a b H1 H2 H3). Qed.
 
 Lemma rejects_port_add_ex : exists a b, wf_named a /\ no_asg a /\ nv_diff MPortAdd a b.
 Proof. exists w_base, w_port_add. split; [vm_compute; reflexivity|split; [vm_compute; reflexivity|exact w_port_add_diff]]. Qed.
 
 (* the copy lacks one port *)
 Lemma rejects_port_drop : forall a b, wf_named a -> no_asg a -> nv_diff MPortDrop a b -> cmp_run a b = Reject.
-Proof. intros a b H1 H2 H3. exact (nv_diff_reject MPortDrop a b H1 H2 eq_refl H3). Qed.
+Proof. intros a b H1 H2 H3. exact (nv_diff_reject MPortDrop a b H1 H2 H3). Qed.
 
 Lemma rejects_port_drop_ex : exists a b, wf_named a /\ no_asg a /\ nv_diff MPortDrop a b.
 Proof. exists w_port_add, w_base. split; [vm_compute; reflexivity|split; [vm_compute; reflexivity|exact w_port_drop_diff]]. Qed.
 
 (* the copy has one more cable *)
 Lemma rejects_cable_add : forall a b, wf_named a -> no_asg a -> nv_diff MCableAdd a b -> cmp_run a b = Reject.
-Proof. intros a b H1 H2 H3. exact (nv_diff_reject MCableAdd a b H1 H2 eq_refl H3). Qed.
+Proof. intros a b H1 H2 H3. exact (nv_diff_reject MCableAdd a b H1 H2 H3). Qed.
 
 Lemma rejects_cable_add_ex : exists a b, wf_named a /\ no_asg a /\ nv_diff MCableAdd a b.
 Proof. exists w_base, w_cable_add. split; [vm_compute; reflexivity|split; [vm_compute; reflexivity|exact w_cable_add_diff]]. Qed.
 
 (* the copy lacks one cable *)
 Lemma rejects_cable_drop : forall a b, wf_named a -> no_asg a -> nv_diff MCableDrop a b -> cmp_run a b = Reject.
-Proof. intros a b H1 H2 H3. exact (nv_diff_reject MCableDrop a b H1 H2 eq_refl H3). Qed.
+Proof. intros a b H1 H2 H3. exact (nv_diff_reject MCableDrop a b H1 H2 H3). Qed.
 
 Lemma rejects_cable_drop_ex : exists a b, wf_named a /\ no_asg a /\ nv_diff MCableDrop a b.
 Proof. exists w_cable_add, w_base. split; [vm_compute; reflexivity|split; [vm_compute; reflexivity|exact w_cable_drop_diff]]. Qed.
 
 (* the copy has one more instance *)
 Lemma rejects_inst_add : forall a b, wf_named a -> no_asg a -> nv_diff MInstAdd a b -> cmp_run a b = Reject.
-Proof. intros a b H1 H2 H3. exact (nv_diff_reject MInstAdd a b H1 H2 eq_refl H3). Qed.
+Proof. intros a b H1 H2 H3. exact (nv_diff_reject MInstAdd a b H1 H2 H3). Qed.
 
 Lemma rejects_inst_add_ex : exists a b, wf_named a /\ no_asg a /\ nv_diff MInstAdd a b.
 Proof. exists w_base, w_inst_add. split; [vm_compute; reflexivity|split; [vm_compute; reflexivity|exact w_inst_add_diff]]. Qed.
 
 (* the copy lacks one instance *)
 Lemma rejects_inst_drop : forall a b, wf_named a -> no_asg a -> nv_diff MInstDrop a b -> cmp_run a b = Reject.
-Proof. intros a b H1 H2 H3. exact (nv_diff_reject MInstDrop a b H1 H2 eq_refl H3). Qed.
+Proof. intros a b H1 H2 H3. exact (nv_diff_reject MInstDrop a b H1 H2 H3). Qed.
 
 Lemma rejects_inst_drop_ex : exists a b, wf_named a /\ no_asg a /\ nv_diff MInstDrop a b.
 Proof. exists w_inst_add, w_base. split; [vm_compute; reflexivity|split; [vm_compute; reflexivity|exact w_inst_drop_diff]]. Qed.
@@ -155,38 +155,57 @@ Proof. exists w_inst_add, w_base. split; [vm_compute; reflexivity|split; [vm_com
 Lemma rejects_all : forall a b, wf_named a -> no_asg a -> single_diff a b -> compare a b = false.
 Proof. exact single_diff_rejected. Qed.
 
-Lemma rejects_all_assertion : forall a b m, wf_named a -> no_asg a -> noticed m = true -> nv_diff m a b ->
-  cmp_run a b = Reject.
-Proof. intros a b m H1 H2 H3 H4. exact (nv_diff_reject m a b H1 H2 H3 H4). Qed.
+Lemma rejects_all_assertion : forall a b m, wf_named a -> no_asg a -> nv_diff m a b -> cmp_run a b = Reject.
+Proof. intros a b m H1 H2 H3. exact (nv_diff_reject m a b H1 H2 H3). Qed.
 
-(* ---------- the property at full strength, and why it fails ---------- *)
+(* a property that only the copy has: EDIF.properties on the copy only, one more entry, one more
+   key in an entry *)
+Lemma rejects_prop_added : forall a b, wf_named a -> no_asg a -> nv_diff MPropAdded a b -> cmp_run a b = Reject.
+Proof. intros a b H1 H2 H3. exact (nv_diff_reject MPropAdded a b H1 H2 H3). Qed.
+
+Lemma rejects_prop_added_ex : exists a b, wf_named a /\ no_asg a /\ nv_diff MPropAdded a b.
+Proof. exists w_base, w_prop_new. split; [exact w_base_wf|split; [exact w_base_noasg|exact w_prop_new_diff]]. Qed.
+
+(* ---------- the property at full strength ---------- *)
 (* every named netlist is accepted against itself and rejected against every copy with one
-   difference of any class of the property - including a property only the copy has, and
-   without excluding instances named like assignments *)
+   difference of any class of the property - including a property only the copy has *)
+Definition full_named : Prop :=
+  forall a, wf_named a -> no_asg a ->
+    compare a a = true /\ forall m b, nv_diff m a b -> cmp_run a b = Reject.
+
+Lemma full_named_holds : full_named.
+Proof.
+  intros a Hwf Hna. split; [apply compare_refl; assumption|].
+  intros m b Hd. apply (nv_diff_reject m a b); assumption.
+Qed.
+
+(* the former witnesses of the refutation (a property only the copy has was accepted) *)
+Lemma extra_property_rejected :
+  nv_diff MPropAdded w_base w_prop_new /\ cmp_run w_base w_prop_new = Reject /\
+  nv_diff MPropAdded w_base w_prop_entry /\ cmp_run w_base w_prop_entry = Reject.
+Proof.
+  split; [exact w_prop_new_diff|]. split; [exact w_prop_new_rejected|].
+  split; [exact w_prop_entry_diff|exact w_prop_entry_rejected].
+Qed.
+
+(* ... without excluding instances named like assignments it still fails *)
 Definition full : Prop :=
   forall a, wf_named a ->
     compare a a = true /\ forall m b, nv_diff m a b -> compare a b = false.
 
-Lemma refuted_extra_property : ~ full.
+Lemma refuted_full_by_assignment : ~ full.
 Proof.
-  intro H. destruct (H w_base w_base_wf) as [_ Hr].
-  specialize (Hr MPropAdded w_prop_new w_prop_new_diff). rewrite w_prop_new_accepted in Hr. discriminate.
+  intro H. destruct (H w_asg w_asg_wf) as [_ Hr].
+  specialize (Hr MInstRef w_asg_ref w_asg_ref_diff). rewrite w_asg_ref_accepted in Hr. discriminate.
 Qed.
 
-Lemma refuted_extra_property_entry :
-  exists a b, wf_named a /\ no_asg a /\ nv_diff MPropAdded a b /\ compare a b = true.
-Proof.
-  exists w_base, w_prop_entry. repeat split; try (vm_compute; reflexivity).
-  - exact w_prop_entry_diff.
-Qed.
-
-(* the noticed classes without the hypothesis no_asg *)
+(* single differences without the hypothesis no_asg *)
 Definition full_noticed : Prop := forall a b, wf_named a -> single_diff a b -> compare a b = false.
 
 Lemma refuted_assignment_reference : ~ full_noticed.
 Proof.
   intro H. specialize (H w_asg w_asg_ref w_asg_wf).
-  rewrite w_asg_ref_accepted in H. discriminate H. exists MInstRef. split; [reflexivity|exact w_asg_ref_diff].
+  rewrite w_asg_ref_accepted in H. discriminate H. exists MInstRef. exact w_asg_ref_diff.
 Qed.
 
 Lemma refuted_assignment_moved :
@@ -208,8 +227,54 @@ Proof. exists w_short. exact w_short_self. Qed.
 Lemma refuted_self_unnamed_instance : exists a, cmp_run a a = AttrErr.
 Proof. exists w_noname. exact w_noname_self. Qed.
 
-(* differences reported by another exception than AssertionError *)
-Lemma missing_property_is_keyerror : exists a b, wf_named a /\ no_asg a /\ cmp_run a b = KeyErr.
-Proof. exists w_base, w_prop_dropped. split; [exact w_base_wf|split; [exact w_base_noasg|exact w_prop_dropped_keyerror]]. Qed.
-Lemma renamed_element_is_stopiteration : exists a b, wf_named a /\ no_asg a /\ cmp_run a b = StopIter.
-Proof. exists w_base, w_renamed. split; [exact w_base_wf|split; [exact w_base_noasg|exact w_renamed_stopiter]]. Qed.
+(* differences that were reported by another exception than AssertionError: a property the copy
+   lacks (was KeyError), a renamed element (was StopIteration) *)
+Lemma missing_property_is_rejected : exists a b, wf_named a /\ no_asg a /\ cmp_run a b = Reject /\ cmp_run b a = Reject.
+Proof. exists w_base, w_prop_dropped. split; [exact w_base_wf|split; [exact w_base_noasg|split; [exact w_prop_dropped_rejected|vm_compute; reflexivity]]]. Qed.
+Lemma renamed_element_is_rejected : exists a b, wf_named a /\ no_asg a /\ cmp_run a b = Reject /\ cmp_run b a = Reject.
+Proof. exists w_base, w_renamed. split; [exact w_base_wf|split; [exact w_base_noasg|split; [exact w_renamed_rejected|vm_compute; reflexivity]]]. Qed.
+
+(* ---------- compare_instances returns or raises AssertionError, nothing else ---------- *)
+(* whatever the two EDIF.properties lists are: the asserts on the number of entries and on the key
+   sets make properties_composer[x] and properties_composer[x][key] always succeed *)
+Definition assert_only (x : outcome) : Prop := x = Accept \/ x = Reject.
+
+Lemma cmp_items_assert_only items : forall dc,
+  forallb (fun kv => has_key (fst kv) dc) items = true -> assert_only (cmp_items items dc).
+Proof.
+  induction items as [|[k v] items IH]; intros dc H; cbn; [left; reflexivity|].
+  cbn in H. apply andb_true_iff in H as [Hk H]. destruct (has_key_sassoc Hk) as [v' ->].
+  destruct (pval_eqb v v'); cbn; [apply IH; assumption|right; reflexivity].
+Qed.
+
+Lemma cmp_props_assert_only po : forall pc, length po = length pc -> assert_only (cmp_props po pc).
+Proof.
+  induction po as [|o po IH]; intros [|c pc] Hl; try discriminate Hl; cbn [cmp_props]; [left; reflexivity|].
+  destruct (keys_eqb o c) eqn:E; cbn [check seq]; [|right; reflexivity].
+  unfold keys_eqb in E. apply andb_true_iff in E as [E _].
+  destruct (cmp_items_assert_only o c E) as [-> | ->]; cbn [seq]; [|right; reflexivity].
+  apply IH. cbn in Hl. lia.
+Qed.
+
+(* compare_instances on two instances with a reference: returns or raises AssertionError, whatever
+   their properties *)
+Lemma cmp_inst_assert_only o c : i_ref o <> None -> i_ref c <> None ->
+  assert_only (cmp_inst (Some o) (Some c)).
+Proof.
+  intros Ho Hc. unfold cmp_inst. cbn [oi_name oi_oid].
+  destruct (oname_eqb (i_name o) (i_name c)); cbn [check seq]; [|right; reflexivity].
+  destruct (oname_eqb (i_oid o) (i_oid c)); cbn [check seq]; [|right; reflexivity].
+  destruct (i_ref o) as [[d1 l1]|]; [|contradiction]. destruct (i_ref c) as [[d2 l2]|]; [|contradiction].
+  cbn [cmp_ref]. destruct (oname_eqb d1 d2 && oname_eqb l1 l2); cbn [check seq]; [|right; reflexivity].
+  destruct (i_props o) as [po|], (i_props c) as [pc|]; try (right; reflexivity); [|left; reflexivity].
+  destruct (Nat.eqb (length po) (length pc)) eqn:E; cbn [check seq]; [|right; reflexivity].
+  apply cmp_props_assert_only. apply Nat.eqb_eq. assumption.
+Qed.
+
+Lemma cmp_inst_assert_only_ex :
+  exists o c, i_ref o <> None /\ i_ref c <> None /\ i_props o <> i_props c /\ i_props o <> None /\ i_props c <> None.
+Proof.
+  exists (mkinst (Some (s2l "u")) None (Some (Some (s2l "d"), Some (s2l "l"))) (Some [[(s2l "k", PInt 1%Z)]])),
+         (mkinst (Some (s2l "u")) None (Some (Some (s2l "d"), Some (s2l "l"))) (Some [])).
+  repeat split; cbn; discriminate.
+Qed.
